@@ -1,260 +1,3 @@
-import CoolerModel.Model.Merge
-import CoolerModel.Props.GroupSumLemmas
-import CoolerModel.Props.C02
-import CoolerModel.Props.C03
-/-!
-# C07 — merging coolers is the exact element-wise aggregate of the inputs
-
-The epoch partition (`merge_breakpoints`) is a free unit: `merger_eq_spec` holds for EVERY partition
-that is a strictly increasing chain from 0 beyond which no input has records.
--/
-set_option linter.unusedSimpArgs false
-set_option linter.unusedVariables false
-
-namespace Cooler.C07
-open Cooler Cooler.Merge
-
-/-- per-input form of the partition contract -/
-def ValidPartition (inputs : List Pixels) (a : Nat) (bs : List Nat) : Prop :=
-  chainIncr a bs = true ∧ ∀ ps ∈ inputs, off ps ((a :: bs).getLast?.getD 0) = ps.length
-
-theorem chainIncr_last_ge : ∀ (bs : List Nat) (a : Nat), chainIncr a bs = true →
-    a ≤ (a :: bs).getLast?.getD 0 := by
-  intro bs
-  induction bs with
-  | nil => intro a _; simp
-  | cons b rest ih =>
-    intro a h
-    simp only [chainIncr, Bool.and_eq_true, decide_eq_true_eq] at h
-    have := ih b h.2
-    rw [List.getLast?_cons_cons]
-    omega
-
-/-! ## rows of an epoch -/
-
-theorem mem_epochRows (inputs : List Pixels) (hs : ∀ ps ∈ inputs, RowSorted ps) (a b : Nat) (hab : a ≤ b)
-    (p : Px) (hp : p ∈ epochRows inputs a b) : a ≤ p.i ∧ p.i < b := by
-  unfold epochRows at hp
-  simp only [List.mem_flatten, List.mem_map] at hp
-  obtain ⟨l, ⟨ps, hps, rfl⟩, hpl⟩ := hp
-  rw [rowsSlice_eq_filter ps (hs ps hps) a b hab] at hpl
-  simpa using (List.mem_filter.mp hpl).2
-
-theorem sumAt_epochRows_append (inputs : List Pixels) {a b c : Nat} (hab : a ≤ b) (hbc : b ≤ c) (i j : Nat) :
-    sumAt (epochRows inputs a b) i j + sumAt (epochRows inputs b c) i j = sumAt (epochRows inputs a c) i j := by
-  unfold epochRows
-  induction inputs with
-  | nil => simp [sumAt]
-  | cons ps rest ih =>
-    simp only [List.map_cons, List.flatten_cons, sumAt_append]
-    rw [← rowsSlice_append ps hab hbc, sumAt_append]
-    omega
-
-theorem hasKey_epochRows_append (inputs : List Pixels) {a b c : Nat} (hab : a ≤ b) (hbc : b ≤ c) (i j : Nat) :
-    hasKey (epochRows inputs a c) i j ↔ hasKey (epochRows inputs a b) i j ∨ hasKey (epochRows inputs b c) i j := by
-  unfold epochRows
-  induction inputs with
-  | nil => simp [hasKey_nil]
-  | cons ps rest ih =>
-    simp only [List.map_cons, List.flatten_cons, hasKey_append]
-    rw [← rowsSlice_append ps hab hbc, hasKey_append, ih]
-    constructor
-    · rintro ((h | h) | (h | h))
-      · exact Or.inl (Or.inl h)
-      · exact Or.inr (Or.inl h)
-      · exact Or.inl (Or.inr h)
-      · exact Or.inr (Or.inr h)
-    · rintro ((h | h) | (h | h))
-      · exact Or.inl (Or.inl h)
-      · exact Or.inr (Or.inl h)
-      · exact Or.inl (Or.inr h)
-      · exact Or.inr (Or.inr h)
-
-theorem epochRows_self (inputs : List Pixels) (a : Nat) : epochRows inputs a a = [] := by
-  unfold epochRows
-  induction inputs with
-  | nil => rfl
-  | cons ps rest ih =>
-    simp only [List.map_cons, List.flatten_cons, ih, List.append_nil]
-    unfold rowsSlice slicePx; simp
-
-/-- what one epoch contributes -/
-theorem epochOut_flatten (inputs : List Pixels) (a b : Nat) :
-    (epochOut inputs a b).flatten = groupSum (epochRows inputs a b) := by
-  unfold epochOut
-  split
-  · rename_i h; rw [h]; rfl
-  · simp
-
-theorem mem_groupSum_row (l : Pixels) (p : Px) (hp : p ∈ groupSum l) : ∃ q ∈ l, q.i = p.i ∧ q.j = p.j :=
-  (hasKey_groupSum l p.i p.j).mp ⟨p, hp, rfl, rfl⟩
-
-/-- the stream over a chain of epochs: strictly sorted, rows inside the chain's range, and the key set
-and per-key totals of all the rows of the range -/
-theorem mergerFrom_spec (inputs : List Pixels) (hs : ∀ ps ∈ inputs, RowSorted ps) :
-    ∀ (bs : List Nat) (a : Nat), chainIncr a bs = true →
-      let e := (a :: bs).getLast?.getD 0
-      let out := (mergerFrom inputs a bs).flatten
-      StrictSorted out ∧ (∀ p ∈ out, a ≤ p.i ∧ p.i < e) ∧
-        (∀ i j, sumAt out i j = sumAt (epochRows inputs a e) i j) ∧
-        (∀ i j, hasKey out i j ↔ hasKey (epochRows inputs a e) i j) := by
-  intro bs
-  induction bs with
-  | nil =>
-    intro a _
-    simp only [mergerFrom, List.flatten_nil, List.getLast?_singleton, Option.getD_some, epochRows_self]
-    refine ⟨by simp [StrictSorted], by simp, fun _ _ => trivial, fun _ _ => trivial⟩
-  | cons b rest ih =>
-    intro a h
-    simp only [chainIncr, Bool.and_eq_true, decide_eq_true_eq] at h
-    obtain ⟨hab, hrest⟩ := h
-    have hbe := chainIncr_last_ge rest b hrest
-    obtain ⟨ih1, ih2, ih3, ih4⟩ := ih b hrest
-    simp only [List.getLast?_cons_cons] at *
-    simp only [mergerFrom, List.flatten_append, epochOut_flatten]
-    have hrows1 : ∀ p ∈ groupSum (epochRows inputs a b), a ≤ p.i ∧ p.i < b := by
-      intro p hp
-      obtain ⟨q, hq, hqi, _⟩ := mem_groupSum_row _ p hp
-      have := mem_epochRows inputs hs a b (by omega) q hq
-      omega
-    refine ⟨?_, ?_, ?_, ?_⟩
-    · unfold StrictSorted
-      rw [List.pairwise_append]
-      refine ⟨groupSum_sorted _, ih1, ?_⟩
-      intro p hp q hq
-      have h1 := hrows1 p hp
-      have h2 := ih2 q hq
-      unfold keyLt; omega
-    · intro p hp
-      rcases List.mem_append.mp hp with h1 | h1
-      · have := hrows1 p h1; omega
-      · have := ih2 p h1; omega
-    · intro i j
-      rw [sumAt_append, sumAt_groupSum, ih3, sumAt_epochRows_append inputs (by omega) hbe]
-    · intro i j
-      rw [hasKey_append, hasKey_groupSum, ih4, hasKey_epochRows_append inputs (Nat.le_of_lt hab) hbe]
-
-theorem off_zero (ps : Pixels) : off ps 0 = 0 := by
-  unfold off; rw [List.countP_eq_zero]; intro p _; simp
-
-theorem epochRows_all (inputs : List Pixels) (e : Nat) (he : ∀ ps ∈ inputs, off ps e = ps.length) :
-    epochRows inputs 0 e = inputs.flatten := by
-  unfold epochRows
-  congr 1
-  conv => rhs; rw [← List.map_id inputs]
-  apply List.map_congr_left
-  intro ps hps
-  unfold rowsSlice slicePx
-  rw [off_zero, he ps hps]
-  simp
-
-/-- **merger_eq_spec**: for strictly sorted inputs and ANY valid partition (any buffer size), the chunk
-stream the merger hands to `create` concatenates to the exact per-pixel aggregate of the inputs, in
-storage order. -/
-theorem merger_eq_spec (inputs : List Pixels) (hs : ∀ ps ∈ inputs, StrictSorted ps)
-    (bs : List Nat) (hv : ValidPartition inputs 0 bs) :
-    (merger inputs (0 :: bs)).flatten = mergeSpec inputs := by
-  obtain ⟨hc, he⟩ := hv
-  have hrs : ∀ ps ∈ inputs, RowSorted ps := fun ps h => C03.StrictSorted.rowSorted (hs ps h)
-  obtain ⟨h1, _, h3, h4⟩ := mergerFrom_spec inputs hrs bs 0 hc
-  unfold merger mergeSpec
-  rw [epochRows_all inputs _ he] at h3 h4
-  exact groupSum_eq_of _ _ h1 h4 h3
-
-/-- hence the stream is a valid input for `create` (strictly sorted; see C02.create_valid) -/
-theorem merger_stream_sorted (inputs : List Pixels) (hs : ∀ ps ∈ inputs, StrictSorted ps)
-    (bs : List Nat) (hv : ValidPartition inputs 0 bs) :
-    StrictSorted (merger inputs (0 :: bs)).flatten := by
-  rw [merger_eq_spec inputs hs bs hv]; exact groupSum_sorted _
-
-/-- **merge_buffer_independent**: two valid partitions (two buffer sizes) give the same table -/
-theorem merge_buffer_independent (inputs : List Pixels) (hs : ∀ ps ∈ inputs, StrictSorted ps)
-    (b1 b2 : List Nat) (h1 : ValidPartition inputs 0 b1) (h2 : ValidPartition inputs 0 b2) :
-    (merger inputs (0 :: b1)).flatten = (merger inputs (0 :: b2)).flatten := by
-  rw [merger_eq_spec inputs hs b1 h1, merger_eq_spec inputs hs b2 h2]
-
-/-! ## algebra of the aggregate -/
-
-/-- **merge_comm**: the order of the inputs does not matter -/
-theorem merge_comm (in1 in2 : List Pixels) (h : in1.Perm in2) : mergeSpec in1 = mergeSpec in2 := by
-  unfold mergeSpec
-  apply groupSum_perm
-  have := List.Perm.flatMap_right (fun x : Pixels => x) h
-  simpa [List.flatMap_id'] using this
-
-/-- **merge_assoc**: merging a merge with further inputs is merging everything at once -/
-theorem merge_assoc (a b : List Pixels) :
-    mergeSpec (mergeSpec a :: b) = mergeSpec (a ++ b) := by
-  unfold mergeSpec
-  simp only [List.flatten_cons, List.flatten_append]
-  apply groupSum_eq_of _ _ (groupSum_sorted _)
-  · intro i j
-    rw [hasKey_groupSum, hasKey_append, hasKey_groupSum, hasKey_append]
-  · intro i j
-    rw [sumAt_groupSum, sumAt_append, sumAt_groupSum, sumAt_append]
-
-theorem merge_single (a : Pixels) (h : StrictSorted a) : mergeSpec [a] = a := by
-  unfold mergeSpec; simp [groupSum_of_sorted a h]
-
-theorem total_cons (p : Px) (l : Pixels) : total (p :: l) = p.v + total l := by
-  unfold total
-  have := C02.foldl_add_append [p.v] (l.map Px.v) 0
-  simp only [List.singleton_append, List.foldl_cons, List.foldl_nil] at this
-  simp only [List.map_cons, List.foldl_cons]
-  rw [this]; omega
-
-theorem total_append (a b : Pixels) : total (a ++ b) = total a + total b := by
-  induction a with
-  | nil => simp [total]
-  | cons p rest ih => simp only [List.cons_append, total_cons, ih]; omega
-
-theorem total_insertPx (p : Px) (l : Pixels) : total (insertPx p l) = p.v + total l := by
-  induction l with
-  | nil => simp [insertPx, total_cons]
-  | cons q rest ih =>
-    unfold insertPx
-    split
-    · simp [total_cons]
-    · split
-      · simp only [total_cons]; omega
-      · simp only [total_cons, ih]; omega
-
-/-- **merge_sum**: the recorded total of the merge is the sum of the inputs' totals -/
-theorem total_groupSum (l : Pixels) : total (groupSum l) = total l := by
-  unfold groupSum
-  induction l with
-  | nil => rfl
-  | cons p rest ih => simp only [List.foldr_cons, total_insertPx, ih, total_cons]
-
-theorem total_flatten (ls : List Pixels) : total ls.flatten = ((ls.map total).foldl (· + ·) 0) := by
-  induction ls with
-  | nil => simp [total]
-  | cons a rest ih =>
-    simp only [List.flatten_cons, total_append, ih, List.map_cons]
-    have := C02.foldl_add_append [total a] (rest.map total) 0
-    simp only [List.singleton_append, List.foldl_cons, List.foldl_nil] at this
-    simp only [List.foldl_cons]
-    rw [this]; omega
-
-theorem merge_sum (inputs : List Pixels) :
-    total (mergeSpec inputs) = (inputs.map total).foldl (· + ·) 0 := by
-  unfold mergeSpec; rw [total_groupSum, total_flatten]
-
-/-- every stored value is the exact per-pixel aggregate: key present iff present in some input, and
-value = sum over the inputs -/
-theorem merge_pointwise (inputs : List Pixels) (i j : Nat) :
-    sumAt (mergeSpec inputs) i j = sumAt inputs.flatten i j ∧
-    (hasKey (mergeSpec inputs) i j ↔ hasKey inputs.flatten i j) :=
-  ⟨sumAt_groupSum _ i j, hasKey_groupSum _ i j⟩
-
-/-- non-vacuity: two concrete inputs with an empty leading row range and a valid partition -/
-example : ValidPartition [[⟨1, 1, 2⟩, ⟨1, 2, 3⟩], [⟨1, 1, 5⟩, ⟨2, 2, 1⟩]] 0 [1, 2, 3] := by
-  refine ⟨by decide, ?_⟩
-  intro ps hps
-  simp at hps
-  rcases hps with rfl | rfl <;> decide
-
-example : (merger [[⟨1, 1, 2⟩, ⟨1, 2, 3⟩], [⟨1, 1, 5⟩, ⟨2, 2, 1⟩]] [0, 1, 2, 3]).flatten
-    = [⟨1, 1, 7⟩, ⟨1, 2, 3⟩, ⟨2, 2, 1⟩] := by decide
-
-end Cooler.C07
+-- C07 — property theorems: merger = aggregate (C07Core) and the breakpoint loop's contract (C07Break)
+import CoolerModel.Props.C07Core
+import CoolerModel.Props.C07Break
